@@ -182,7 +182,50 @@ fn gen_c13(tier: &str, rng: &mut Rng) -> Vec<Case> {
             cases.push(c);
         }
     }
+    gen_c13_short(tier, rng, &mut cases);
     cases
+}
+/// short texts in prefixed blocks at the narrowest widths: the kind of white space between two
+/// short words must not decide whether the block fits (the estimate counts a run as one column)
+fn gen_c13_short(tier: &str, rng: &mut Rng, cases: &mut Vec<Case>) {
+    let n = if tier == "thorough" { 20000 } else { 1500 };
+    for gi in 0..n {
+        let words: Vec<&str> = (0..rng.range(2, 3)).map(|_| *rng.pick(&["a", "b", "xy", "c", "中", "de"])).collect();
+        let mk = |seps: &[&str]| -> String {
+            let mut t = String::new();
+            for (k, w) in words.iter().enumerate() {
+                if k > 0 {
+                    t.push_str(seps[(k - 1) % seps.len()]);
+                }
+                t.push_str(w);
+            }
+            t
+        };
+        let wrap = rng.below(6);
+        let doc = |t: &str| -> String {
+            match wrap {
+                0 => format!("<ul><li>{}</li></ul>", t),
+                1 => format!("<blockquote>{}</blockquote>", t),
+                2 => format!("<h1>{}</h1>", t),
+                3 => format!("<dl><dt>t</dt><dd>{}</dd></dl>", t),
+                4 => format!("<ol><li>{}</li></ol>", t),
+                _ => format!("<ul><li><ul><li>{}</li></ul></li></ul>", t),
+            }
+        };
+        let base = doc(&mk(&[" "]));
+        let var_seps: Vec<&str> = vec![*rng.pick(&["\n", "\t", "\n\n", "\t\t", "\n\t", "  ", " \n ", "\n    "]), *rng.pick(&["\n", "\t", " "])];
+        let variant = doc(&mk(&var_seps));
+        let mut cfg = Cfg { deco: *rng.pick(&[0u8, 2]), ..Default::default() };
+        cfg.overflow = rng.chance(1, 3);
+        let w = rng.range(1, 8);
+        let route = if cfg.deco == 2 { 1 } else { 0 };
+        for (role, h) in [("base", base), ("variant", variant)] {
+            let id = cases.len();
+            let mut c = mk_case(id, route, cfg.clone(), w, h.into_bytes(), Some(route as u64), g(role), "ws_subst");
+            c.group = 7_000_000 + gi;
+            cases.push(c);
+        }
+    }
 }
 fn check_c13(cases: &[Case], results: &[Option<RunResult>]) -> Vec<Violation> {
     let mut v = Vec::new();
@@ -531,7 +574,7 @@ fn gen_c08(tier: &str, rng: &mut Rng) -> Vec<Case> {
     let mut cases = Vec::new();
     for _ in 0..n {
         let tables = rng.chance(1, 3);
-        let o = GenOpts { tables: if tables { 1 } else { 0 }, nested_tables: tables, links: true, odd_links: true, ids: false, imgs: false, sup: false, strike: true, br: true, dl: true, pre: false, max_blocks: 6, ..Default::default() };
+        let o = GenOpts { tables: if tables { 1 } else { 0 }, nested_tables: tables, links: true, odd_links: true, ids: false, imgs: false, sup: true, strike: true, br: true, dl: true, pre: false, max_blocks: 6, ..Default::default() };
         let (html, _) = gen_doc(rng, o);
         let mut cfg = Cfg { deco: *rng.pick(&[0u8, 1, 2, 3]), ..Default::default() };
         cfg.footnotes = *rng.pick(&[1u8, 1, 2, 0]);
@@ -652,7 +695,9 @@ fn check_c08(cases: &[Case], results: &[Option<RunResult>]) -> Vec<Violation> {
                     num.push(bs[j]);
                     j += 1;
                 }
-                if !num.is_empty() && j < bs.len() && bs[j] == ']' {
+                // (numbers from 1000 up are link texts of the generator - a footnote-style link inside
+                // <sup> - never references: documents have far fewer links)
+                if !num.is_empty() && j < bs.len() && bs[j] == ']' && num.len() < 4 {
                     refs.push(num.parse::<usize>().unwrap_or(0));
                     k = j;
                 }
@@ -1000,8 +1045,9 @@ fn check_c09(cases: &[Case], results: &[Option<RunResult>]) -> Vec<Violation> {
                         "pre" => pre = true,
                         // a superscript that is not plain digits is wrapped in ^{ } under its own annotation
                         "sup" => {
-                            let t: String = visible_chars(std::slice::from_ref(*a)).into_iter().collect();
-                            if !(t.chars().all(|ch| ch.is_ascii_digit()) && !t.is_empty()) {
+                            // (the digits special case needs a sole text child)
+                            let digits_only = matches!(a.kids(), [DNode::Text(t)] if !t.is_empty() && t.chars().all(|ch| ch.is_ascii_digit()));
+                            if !digits_only {
                                 anns.push(Ann::Default)
                             }
                         }
@@ -1467,7 +1513,8 @@ fn gen_c03(tier: &str, rng: &mut Rng) -> Vec<Case> {
             let mine: Vec<usize> = (0..5).filter(|_| rng.chance(1, 3)).collect();
             let tok = format!("t{}b{}x", k, b);
             let name = *rng.pick(&["p", "div", "li", "blockquote", "h3"]);
-            let cls = mine.iter().map(|c| classes[*c]).collect::<Vec<_>>().join(" ");
+            let sep = *rng.pick(&[" ", " ", "  ", "\t", "\n", "\n   ", "\u{c}", "\r\n"]);
+            let cls = mine.iter().map(|c| classes[*c]).collect::<Vec<_>>().join(sep);
             let el = if cls.is_empty() { format!("<{}>{}</{}>", name, tok, name) } else { format!("<{} class=\"{}\">{}</{}>", name, cls, tok, name) };
             html.push_str(&if name == "li" { format!("<ul>{}</ul>", el) } else { el });
             // the last rule that matches decides
@@ -1770,7 +1817,7 @@ fn proj_footnotes(o: &Outcome) -> Outcome {
                         num.push(bs[j]);
                         j += 1;
                     }
-                    if !num.is_empty() && j < bs.len() && bs[j] == ']' {
+                    if !num.is_empty() && j < bs.len() && bs[j] == ']' && num.len() < 4 {
                         refs.push_str(&num);
                         refs.push(',');
                         k = j;
